@@ -62,4 +62,12 @@ def cells(tier):
         for strict in (True, False):
             out.append(cmk(PID, tr, strict, 'string', T=T, mids=['20', '30', '100']))
     out.append(cmk(PID, ('roStoryReplace', 'roDelete'), False, 'file', T=T, mids=['7', '30'], perm=[2, 1, 0]))
+    # the roDelete shares its message ID with the roCreate / with an earlier message: it is still merged
+    for strict in (True, False):
+        out.append(cmk(PID, ('roStoryMove', 'roDelete'), strict, 'string', T=T, mids=['20', '1'], tag='roDelete-has-the-id-of-roCreate'))
+        out.append(cmk(PID, ('roStoryMove', 'roDelete', 'roStoryAppend'), strict, 'string', T=T, mids=['20', '20', '30'],
+                       tag='roDelete-repeats-an-id'))
+    # a collection built on an already completed running order stays completed and refuses everything
+    for strict in (True, False):
+        out.append(cmk(PID, ('roStoryMove', 'roMetadataReplace'), strict, 'string', T=T, rc_completed=True))
     return out
